@@ -15,7 +15,7 @@ SRC = {
     "lib/lib.go": "package lib\n\nimport \"reflect\"\n\ntype rec struct{ Field int }\n\nfunc Name() string { return reflect.TypeOf(rec{}).Name() }\n\nfunc Count() int { return len(\"a literal in lib\") }\n",
 }
 base = ensure_base(g, [], None)
-dl = Deadline(1500 if tier == "quick" else 7200)
+dl = Deadline(420 if tier == "quick" else 7200)
 
 def norm(path, root):
     p = path.replace(root, "")
@@ -55,7 +55,8 @@ def scenario(name, prep, tmp_on_shm, select):
     refsha = sha256_file(os.path.join(ref, "out")); refout = exec_bin(os.path.join(ref, "out")).stdout
     ops = [l.split("\t") for l in read(os.path.join(g.root, "log-" + name)).split("\n") if l and l[0].isdigit()]
     shutil.rmtree(ref, ignore_errors=True); shutil.rmtree(tmp, ignore_errors=True)
-    ks = select([(int(o[0]), o[2], norm(o[3], ref)) for o in ops])
+    nops = [(int(o[0]), o[2], norm(o[3], ref)) for o in ops]
+    ks = thin(nops, select(nops))
     log("[%s] %d tracked mutations in the uninterrupted build, %d selected as kill points" % (name, len(ops), len(ks)))
     def one(k):
         if dl.expired(): return None
@@ -99,6 +100,25 @@ def scenario(name, prep, tmp_on_shm, select):
     allb = set((o[2], norm(o[3], ref)) for o in ops)
     return len(ops), len(results), sum(1 for r in results if r["killed"]), hit, allb
 
+def thin(ops, ks):
+    """a run of consecutive boundaries of one kind on one file (the chunks of one copy: 1 write with copy_file_range, hundreds
+    with a read/write loop, depending on the file systems) leaves the same kind of state: keep its first, middle and last."""
+    cls = {n: (sc, p) for n, sc, p in ops}
+    ks = sorted(ks); out = []; i = 0
+    while i < len(ks):
+        j = i
+        while j + 1 < len(ks) and ks[j + 1] == ks[j] + 1 and cls[ks[j + 1]] == cls[ks[i]]: j += 1
+        run_ = ks[i:j + 1]
+        out += sorted(set([run_[0], run_[len(run_) // 2], run_[-1]]))
+        i = j + 1
+    return out
+def sel_quick_classes(ops):
+    """quick: for every distinct (syscall, normalised path) class its first and last boundary, plus every 4th boundary overall."""
+    first, last = {}, {}
+    for n, sc, p in ops:
+        first.setdefault((sc, p), n); last[(sc, p)] = n
+    every = [n for i, (n, sc, p) in enumerate(ops) if i % 4 == 0]
+    return sorted(set(first.values()) | set(last.values()) | set(every))
 def sel_all_but_mkdirs(ops):
     ks = []; mk = [n for n, s, p in ops if s == "mkdir" and re.search(r"/(gocache|garblecache/build)/<xx>$", p)]
     keep_mk = set(mk[:1] + mk[len(mk) // 2:len(mk) // 2 + 1] + mk[-1:])
@@ -228,7 +248,7 @@ def scenario_debugdir():
     shutil.rmtree(root, ignore_errors=True)
     kills = 0
     if phase:
-        ks = sorted(set([phase[0][0], phase[len(phase) // 2][0], phase[-1][0]]))
+        ks = sorted(set([phase[0][0], phase[len(phase) // 2][0], phase[-1][0]])) if tier != "quick" else [phase[len(phase) // 2][0]]
         def one_kill(k):
             root = os.path.join(g.root, "dk-%d" % k); link_clone(S0, root); dd = os.path.join(root, "dd"); shutil.copytree(DD0, dd)
             lp = os.path.join(g.root, "klog-%s-%d" % (name, k))
@@ -267,9 +287,9 @@ def prep_stale_stamp(root):
     _foreign_linker(root)
     write(os.path.join(root, "garblecache", "tool", "link.version"), "go1.26.0 stale\n")
 if tier == "quick":
-    # quick: the standard library's entries stay in both caches, so the builds are short; every boundary of the user
-    # packages' entries and of the output, and every boundary inside GARBLE_CACHE/tool for both install modes
-    SC = [("A-user-packages-cold", prep_none, False, sel_all_but_mkdirs),
+    # quick: the standard library's entries stay in both caches, so the builds are short; for every class of boundary (syscall, normalised path) of the user
+    # packages' entries and of the output its first and last occurrence plus every 4th boundary, and every boundary inside GARBLE_CACHE/tool for both install modes
+    SC = [("A-user-packages-cold", prep_none, False, sel_quick_classes),
           ("B-linker-absent-rename", prep_no_tool, False, lambda ops: sel_tool(ops, 10**9)),
           ("C-linker-stale-copy", prep_stale_stamp, True, lambda ops: sel_tool(ops, 10**9))]
 else:
